@@ -29,7 +29,9 @@ def main():
     except core.MachineryFailure as e:
         print("MACHINERY-FAILURE property=%s %s" % (pid, e))
         return core.EXIT_MACHINERY
-    except Exception:
+    except (KeyboardInterrupt, SystemExit):
+        raise
+    except BaseException:          # incl. faketape.HarnessGap: never exit 1 without a VIOLATION line
         traceback.print_exc()
         print("MACHINERY-FAILURE property=%s unexpected exception" % pid)
         return core.EXIT_MACHINERY
